@@ -1,13 +1,26 @@
 #!/bin/bash
-# tools/seeds_regress.sh : applies every seeded change under /verif/seeded/<id>-<n>/patch.diff to a scratch worktree
-# and runs the quick check of the property it breaks; writes seeded/RESULTS.tsv (seed, property check, exit, violations).
+# tools/seeds_regress.sh [seed-dir...] : applies every seeded change under /verif/seeded/<id>/patch.diff to a scratch
+# worktree and runs the quick check of the property it was written for plus the checks that caught it when it was
+# confirmed; writes seeded/RESULTS.tsv (seed, checks that fail now, first violation of the seed's own property check) and
+# records the result as "caught_by_final" in the seed's meta.json.
 cd "$(dirname "$0")/.."
-: > seeded/RESULTS.tsv.tmp
-for d in seeded/C*-*/; do
-  id=$(basename "$d"); prop=${id%-*}
-  res=$(MUT_SHOW=1 tools/mut.sh "$d/patch.diff" "$prop" 2>&1)
-  line=$(echo "$res" | grep "^$prop exit=")
-  first=$(echo "$res" | grep "entry=" | head -1 | sed 's/^ *//' | cut -c1-160)
-  echo -e "$id\t$line\t$first" | tee -a seeded/RESULTS.tsv.tmp
+touch seeded/RESULTS.tsv
+dirs=${*:-seeded/C*-*/}
+for d in $dirs; do
+  d=${d%/}; id=$(basename "$d"); prop=${id%%-*}
+  others=$(python3 -c "import json;print(' '.join(c for c in json.load(open('$d/meta.json')).get('caught_by',[]) if c!='$prop'))")
+  res=$(MUT_SHOW=1 tools/mut.sh "$d/patch.diff" $prop $others 2>&1)
+  failing=$(echo "$res" | awk '/exit=1/{print $1}' | tr '\n' ' ')
+  bad=$(echo "$res" | awk '/exit=2/{print $1}' | tr '\n' ' ')
+  first=$(echo "$res" | grep -A1 "^$prop exit=1" | grep "entry=" | head -1 | sed 's/^ *//' | cut -c1-160)
+  echo "$res" | grep -q "cannot apply" && failing="(patch does not apply)"
+  python3 - "$d/meta.json" "$failing" <<'PY'
+import json,sys
+p,f=sys.argv[1],sys.argv[2]
+m=json.load(open(p)); m['caught_by_final']=f.split() if not f.startswith('(') else f; json.dump(m,open(p,'w'),indent=1)
+PY
+  grep -v "^$id	" seeded/RESULTS.tsv > seeded/RESULTS.tsv.tmp
+  echo -e "$id\t${failing:-NONE}${bad:+ (could not run: $bad)}\t$first" | tee -a seeded/RESULTS.tsv.tmp
+  mv seeded/RESULTS.tsv.tmp seeded/RESULTS.tsv
 done
-mv seeded/RESULTS.tsv.tmp seeded/RESULTS.tsv
+sort -o seeded/RESULTS.tsv seeded/RESULTS.tsv
